@@ -46,23 +46,23 @@ CHECKS["C08"] = dict(
     text="The property is the invariant itself: Agree s vt says every 'some' in terminal_state (last element -> rendition and charset, cursor, saved cursor, visibility, size) equals the reference terminal's state; agree_step proves it is preserved by each of the 16 operations and by resize events, agree_run lifts it to every prefix of every history for all sizes, wrap and erase behaviours and initial states; plus theorems that the record says unknown after the last column, a size change, and restoring a never-saved position, and that the last-column state really differs between the three wrap modes. The real record is read through a user manipulator after every operation and compared with Ref.VT.",
     note=VTNOTE, technique="Lean 4 invariant proof by induction over operation histories (refinement to reference VT); state record compared after every op as tie", ref="§5 C08")
 CHECKS["C09"] = dict(
-    text="For each of the six erase manipulators, after any history including none at all: the reference terminal's cells in the region the manipulator's name denotes become default-attribute blanks in all three erase behaviours (plain, background-colour-erase, current-rendition), no other cell of either buffer changes, cursor and pending-wrap flag are untouched, the rendition is default afterwards and the belief stays true, so later text is rendered exactly (C01 from the resulting state). On the pinned tree the check found erases on an unknown rendition sending no SGR 0 (fixed).",
+    text="For each of the six erase manipulators, after any history including none at all: the reference terminal's cells in the region the manipulator's name denotes become default-attribute blanks in all three erase behaviours (plain, background-colour-erase, current-rendition), no other cell of either buffer changes, cursor and pending-wrap flag are untouched, the rendition is default afterwards and the belief stays true, so later text is rendered exactly (C01 from the resulting state). On the pinned tree the check found erases on an unknown rendition sending no SGR 0 (fixed). Additionally (C09_erase_any_size / C09_erase_after_any_size) the same statement holds when only the rendition half of the belief is true: no set_size, a wrong set_size, a false belief about the cursor - the region is relative to where the terminal's cursor really is.",
     note=VTNOTE, technique="Lean 4 proof (ED/EL lemmas on the reference VT + simulation invariant); every erase x cursor x preceding-state sweep as tie", ref="§5 C09")
 CHECKS["C11"] = dict(
-    text="A specification-level record of the most recent request of each kind (visibility, buffer, mouse, title) is proved consistent with the reference terminal's DEC private modes 25/47/1000/1003 and title after every in-domain history interleaved with text/cursor/erase/resize operations, for all 16 capability combinations and unknown initial modes: supported modes follow the last request despite elision, unsupported modes and never-requested kinds keep the terminal's own value, nothing is sent without the capability, BEL/ST terminator by capability, disable mirrors enable.",
+    text="A specification-level record of the most recent request of each kind (visibility, buffer, mouse, title) is proved consistent with the reference terminal's DEC private modes 25/47/1000/1003 and title after every in-domain history interleaved with text/cursor/erase/resize operations, for all 16 capability combinations and unknown initial modes: supported modes follow the last request despite elision, unsupported modes and never-requested kinds keep the terminal's own value, nothing is sent without the capability, BEL/ST terminator by capability, disable mirrors enable. Additionally (C11_modes_any_size / C11_modes_readme, via rstep_modes) the same consistency holds with no assumption relating positions to sizes (README use without set_size, lying set_size, silent terminal resize, moves to any non-negative position).",
     note=VTNOTE, technique="Lean 4 proof: per-event mode-effect lemma + refinement to an abstract 'last requested' spec by induction; exhaustive capability x mode-sequence sweep as tie", ref="§5 C11")
 CHECKS["C13"] = dict(
     text="When the record names the element last written or the attribute left by an erase (and by the simulation invariant the terminal really has that rendition and character set in effect), an element with the same attribute and charset is transmitted as its glyph bytes only (also inside strings, also after an erase); moving to the position the cursor is known - and by the invariant really is - at, and requesting the visibility already in effect, transmit nothing.",
     note=VTNOTE, technique="Lean 4 theorems on the encoder model lifted to the terminal by the simulation invariant; repeated-operation sweeps as tie", ref="§5 C13")
 
 CHECKS["C17"] = dict(
-    text="Lean proves: to_string(string(bytes)) = bytes for every byte list (all 256 values, embedded NUL); to_string distributes over concatenation; the output of terminal << string is proved equal to a list of control segments and payload segments whose payload part - every control segment removed - is exactly to_string of the string, for ANY glyph byte values (NUL, ESC, 0x80-0xFF), attributes, charsets and prior state, given zero-padded well-formed UTF-8 glyphs; and for graphic glyphs the reference terminal's own print log carries exactly to_string. Tied to the real string/to_string/terminal by all single bytes, all 65536 UTF-8 glyphs (thorough) and random strings/splits; the oracle re-parses the real wire as control functions interleaved with the expected glyph text. On the pinned tree the check found to_string dropping the UTF-8 glyph U+0000 (fixed).",
+    text="Lean proves: to_string(string(bytes)) = bytes for every byte list (all 256 values, embedded NUL); to_string distributes over concatenation; the output of terminal << string is proved equal to a list of control segments and payload segments whose payload part - every control segment removed - is exactly to_string of the string, for ANY glyph byte values (NUL, ESC, 0x80-0xFF), attributes, charsets and prior state, given zero-padded well-formed UTF-8 glyphs; and for graphic glyphs the reference terminal's own print log carries exactly to_string. Tied to the real string/to_string/terminal by all single bytes, all 65536 UTF-8 glyphs (thorough) and random strings/splits; the oracle re-parses the real wire as control functions interleaved with the expected glyph text. On the pinned tree the check found to_string dropping the UTF-8 glyph U+0000 (fixed). Construction side (this is the whole of class string): every constructor (char const* up to the terminating NUL whatever follows in memory, pointer+length, std::string, std::string+attribute - attributes never drop text, embedded NUL included -, fill, iterator pair, initializer list, _ts), += and + with elements and strings, both inserts, the three erases, swap and operator[] assignment are modelled as a register machine polymorphic in the element type; naturality (SeqOp.run_map) gives C17_program_text: after ANY program over the class the plain text of every register is what the same program yields on the sequences of glyph texts. The glyph/element constructors (byte+charset, char8_t arrays, char const*) are modelled and proved to yield a valid glyph whose text is the given well-formed character (C17_glyph_from_cstr, C17_glyph_from_array). Random programs on four registers and constructor sweeps are executed against the real class and judged by the text-level program.",
     note="Lean kernel; axioms propext, Classical.choice, Quot.sound; string = List Element (vector semantics assumed); Glyph.Valid excludes ill-formed UTF-8 storage, where writer and to_string genuinely differ (tie-only cases); control-function syntax in the oracle is ECMA-48 §5.4 CSI + SCS + ESC % F.",
     technique="Lean 4 theorems (induction over strings; segment refinement of the writer) + exhaustive glyph sweeps as tie",
     ref="§5 C17")
 
 CHECKS["C14"] = dict(
-    text="Model level (Lean): a channel is a byte sink; the stdout sink delivers the concatenation of all writes unchanged and in order for arbitrary content and sizes, the bytes a terminal produces do not depend on the sink, and equal the run output. The content of the property is runtime behaviour of the real stdout_channel: every check spawns child processes whose terminal is bound to terminalpp::stdout_channel, reads the pipe to EOF and compares byte for byte (NUL, >=0x80, writes of 0..64 KiB, 256 one-byte writes) with the capturing channel of the executor and with the model. Partial: the iostream layer and flushing at process exit are observed, not proved. On the pinned tree the check found the empty write() body (fixed).",
+    text="Model level (Lean): a channel is a byte sink; the stdout sink delivers the concatenation of all writes unchanged and in order for arbitrary content and sizes, the bytes a terminal produces do not depend on the sink, and equal the run output. The content of the property is runtime behaviour of the real stdout_channel: every check spawns child processes whose terminal is bound to terminalpp::stdout_channel, reads the pipe to EOF and compares byte for byte (NUL, >=0x80, writes of 0..64 KiB, 256 one-byte writes) with the capturing channel of the executor and with the model. Partial: the iostream layer and flushing at process exit are observed, not proved. On the pinned tree the check found the empty write() body (fixed). Large writes (70 KB - 1 MB) are additionally made on a full pipe while SIGUSR1 is delivered repeatedly to the blocked writer (write(2) returns short counts) and the parent reads slowly.",
     note="Lean kernel, no axioms beyond propext/Quot.sound; std::cout, the OS pipe and process-exit flushing are outside the model (stated limitation: level is proof for the sink model, differential execution for the runtime).",
     technique="Lean 4 theorems on a byte-sink model + child-process differential execution of the real stdout_channel",
     ref="§5 C14")
@@ -73,20 +73,20 @@ CHECKS["C03"] = dict(
     technique="Lean 4 proof: loop invariant over the cell traversal + frame-sequence induction on the simulation invariant; proved counterexample for the excluded case; frame-sequence differential tie",
     ref="§5 C03")
 CHECKS["C04"] = dict(
-    text="Lean proves: drawing the canvas last drawn yields no operations and hence no bytes from any terminal state; the operation list of a draw is exactly an erase iff the size changed followed by move+element for the cells whose element differs (library inequality) from the previous frame or from blanks, in for_each_in_region order which is row-major without duplicates (C16 lemmas); and on the wire: the reference terminal's print log grows during the draw by exactly those cells - each once, in that order, at its own position, shown as the canvas element - on every kind of terminal.",
+    text="Lean proves: drawing the canvas last drawn yields no operations and hence no bytes from any terminal state; the operation list of a draw is exactly an erase iff the size changed followed by move+element for the cells whose element differs (library inequality) from the previous frame or from blanks, in for_each_in_region order which is row-major without duplicates (C16 lemmas); and on the wire: the reference terminal's print log grows during the draw by exactly those cells - each once, in that order, at its own position, shown as the canvas element - on every kind of terminal. Additionally (C04_wire_cells_any_size, from the rendition-only simulation) with NO size assumption at all - no set_size, canvas larger or smaller than the terminal - the glyphs a draw transmits are exactly the changed cells' elements, each once, in row-major order, with exactly the requested look; frame generators include zero-area canvases between frames.",
     note=VTNOTE,
     technique="Lean 4 proof (definitional unfolding of the draw + loop lemma lifted through the simulation invariant); per-draw glyph count/position oracle on real bytes",
     ref="§5 C04")
 
 CHECKS["C12"] = dict(
-    text="Model level (Lean): for any family of objects whose steps touch only their own state, every schedule that interleaves their operation scripts gives each object exactly the outputs and final state of its solo run (induction over schedules); instantiated for the terminal encoder. That the code has this shape is (i) a regenerated proof obligation - the inventory of all static-storage objects in writable sections of the library built from the working tree (nm), each matched to its source declaration, must be const/constexpr (no_mutable_statics, decided by the kernel on every run; a new mutable static or cache breaks it and is named) - and (ii) execution: sets of 2-8 terminals/screens/one-shot objects alive at once, run round-robin and under seeded random interleavings (ASan+UBSan) and concurrently one thread per object (ThreadSanitizer); each object's bytes, tokens and state records must equal its solo run and the model. Partial for schedules: TSan explores, it does not prove data-race freedom.",
+    text="Model level (Lean): for any family of objects whose steps touch only their own state, every schedule that interleaves their operation scripts gives each object exactly the outputs and final state of its solo run (induction over schedules); instantiated for the terminal encoder. That the code has this shape is (i) a regenerated proof obligation - the inventory of all static-storage objects in writable sections of the library built from the working tree (nm), each matched to its source declaration, must be const/constexpr (no_mutable_statics, decided by the kernel on every run; a new mutable static or cache breaks it and is named) - and (ii) execution: sets of 2-8 terminals/screens/one-shot objects alive at once, run round-robin and under seeded random interleavings (ASan+UBSan) and concurrently one thread per object (ThreadSanitizer); each object's bytes, tokens and state records must equal its solo run and the model. Partial for schedules: TSan explores, it does not prove data-race freedom. Object sets include twin sets: the SAME operation sequence on 2-4 distinct objects that differ only in configuration (or not at all), which is what an argument-keyed cache shared between objects confuses.",
     note="Lean kernel; axioms propext/Quot.sound; the statics matcher (vlib/statics.py: nm -f sysv + regex over the sources) is unverified tooling; thread schedules are whatever the OS produces in the TSan runs; the C++ memory model is outside the Lean model.",
     technique="Lean 4 interleaving theorem + regenerated static-storage inventory as proof obligation + interleaved/concurrent differential execution (ASan, TSan)",
     ref="§5 C12")
 
-INNOTE = "Lean kernel; axioms propext, Classical.choice, Quot.sound; detail::parser and get_well_known_virtual_key are modelled state by state with every scratch member; argument_to_integer (strtoll clamped to int, which replaced atoi in fix 1071cf8) and isdigit are modelled, not verified, and cross-checked on the int boundary values every run; function-local tables in .cpp files are tied by exhaustive sweeps, the header constants they use are regenerated; the specification side (Tpp.Ref.Input: items of the xterm/ECMA-48 input protocol, xterm modifier rule, designates) is hand-written from the protocol documents."
+INNOTE = "Lean kernel; axioms propext, Classical.choice, Quot.sound; detail::parser and get_well_known_virtual_key are modelled state by state with every scratch member; argument_to_integer (strtoll clamped to int, which replaced atoi in fix 1071cf8) and isdigit are modelled, not verified, and cross-checked on the int boundary values every run; function-local tables in .cpp files are REGENERATED on every run (vlib/tables.py pastes the declaration text into a C++ printer) and proved equal to the model's tables, and are additionally tied by exhaustive sweeps; the header constants they use are regenerated; the specification side (Tpp.Ref.Input: items of the xterm/ECMA-48 input protocol, xterm modifier rule, designates) is hand-written from the protocol documents."
 CHECKS["C05"] = dict(
-    text="Lean proves, for an idle decoder with ARBITRARY scratch fields: any concatenation of well-formed input items (characters, the five Enter forms, CSI cursor/Home/End/Tab/BackTab keys with repeat counts and modifiers in 7- and 8-bit form with meta prefix, SS3 keys, keypad CSI n;m~, other CSI sequences with parameters and private markers, X10 mouse reports) under the CR/LF adjacency condition decodes to exactly one expected token per item, in order (key, modifiers per the xterm rule, repeat count, mouse button and zero-based position, original sequence); decoding of an item does not depend on what preceded it; the key/modifier/mouse tables agree with the protocol tables for all bytes. Tied by the exhaustive (prefix state x next byte x suffix) sweep, the key-space sweep incl. atoi boundary values, mouse grids and random item streams; the oracle compares real tokens with items.map expected.",
+    text="Lean proves, for an idle decoder with ARBITRARY scratch fields: any concatenation of well-formed input items (characters, the five Enter forms, CSI cursor/Home/End/Tab/BackTab keys with repeat counts and modifiers in 7- and 8-bit form with meta prefix, SS3 keys, keypad CSI n;m~, other CSI sequences with parameters and private markers, X10 mouse reports) under the CR/LF adjacency condition decodes to exactly one expected token per item, in order (key, modifiers per the xterm rule, repeat count, mouse button and zero-based position, original sequence); decoding of an item does not depend on what preceded it; the key/modifier/mouse tables agree with the protocol tables for all bytes. Tied by the exhaustive (prefix state x next byte x suffix) sweep, the key-space sweep incl. atoi boundary values, mouse grids and random item streams; the oracle compares real tokens with items.map expected. The four key tables and the mouse table the model uses are proved equal (TablesTie, kernel evaluation) to the tables regenerated on every run from the declaration text inside /repo/src/detail/*.cpp.",
     note=INNOTE, technique="Lean 4 proof (per-item lemmas from idle with arbitrary scratch, induction over item lists) + exhaustive transition/key-space differential tie", ref="§5 C05")
 CHECKS["C06"] = dict(
     text="Lean proves for arbitrary bytes and any partition into deliveries (empty ones included): the concatenation of the token lists equals the tokens of the whole stream, the final decoder state is the same, and the number of read callbacks equals the number of deliveries; any two partitions of the same stream agree. The executor re-arms async_read from inside the callback like a real client and counts invocations; every representative item split at every position plus random partitions of well-formed, malformed and UTF-8 streams.",
@@ -95,7 +95,7 @@ CHECKS["C07"] = dict(
     text="Lean proves: any four letters bring the input decoder from ANY state to idle (and three do not suffice - witness); two idle states with different scratch decode every stream and every delivery sequence identically (bisimulation), hence after garbage + 4 letters any suffix decodes as on a fresh terminal; every control sequence the decoder emits has at least one argument (the guard for arguments[0]); the markup decoder never yields more elements than input characters, consumes at least one character per element (termination), and never indexes the 38-entry handler table out of range. Termination of every model function is checked by Lean. 'Without undefined behaviour' on the compiled code is supported, not proved: every stream of C05/C06/C10 plus hostile streams (all strings over 11 byte classes up to length 4/6 for both decoders, random to 4096 bytes, digit runs to 10^5) runs under ASan+UBSan with no recovery; an abort is a violation with the input as replay. Partial for memory safety.",
     note=INNOTE + " Memory safety/UB freedom of the compiled C++ is outside the model (sanitised execution only).", technique="Lean 4 proof (resynchronisation, bisimulation, bounds) + sanitised hostile-input execution", ref="§5 C07")
 CHECKS["C20"] = dict(
-    text="The full statement (every abstract-key token is produced only by a control sequence that designates that key per the xterm tables - liberally ignoring extra parameters/markers - or by a line ending; a single ordinary idle byte is reported as that byte) is stated as a Prop and PROVED FALSE of the code on concrete witnesses: bytes 0x80-0x96 except 0x8F come out as cursor_up..f12 (static_cast<vk>). Proved instead (C20_partial): every abstract-key token has a designating sequence, is a line ending, or carries a raw byte from exactly that 22-byte set - for parameters of ANY size; and single ordinary bytes are reported as themselves, abstract exactly on the colliding set. The byte collision needs an API change (wider vk): 22 known findings, matched by signature so any other C20 violation is still reported. A second defect the proof attempt exposed - a keypad/modifier/repeat parameter >= 2^31 wrapped in atoi (ESC[4294967307~ -> F1) - was repaired in /repo (fix 1071cf8: clamp), the exclusion was removed from the theorem and C20_large_parameter_names_no_key states the repaired behaviour. All 256 idle bytes in idle/after CR/after LF and the whole key space are judged by the oracle.",
+    text="The full statement (every abstract-key token is produced only by a control sequence that designates that key per the xterm tables - liberally ignoring extra parameters/markers - or by a line ending; a single ordinary idle byte is reported as that byte) is stated as a Prop and PROVED FALSE of the code on concrete witnesses: bytes 0x80-0x96 except 0x8F come out as cursor_up..f12 (static_cast<vk>). Proved instead (C20_partial): every abstract-key token has a designating sequence, is a line ending, or carries a raw byte from exactly that 22-byte set - for parameters of ANY size; and single ordinary bytes are reported as themselves, abstract exactly on the colliding set. The byte collision needs an API change (wider vk): 22 known findings, matched by signature so any other C20 violation is still reported. A second defect the proof attempt exposed - a keypad/modifier/repeat parameter >= 2^31 wrapped in atoi (ESC[4294967307~ -> F1) - was repaired in /repo (fix 1071cf8: clamp), the exclusion was removed from the theorem and C20_large_parameter_names_no_key states the repaired behaviour. All 256 idle bytes in idle/after CR/after LF and the whole key space are judged by the oracle. The key tables the model uses are proved equal to the tables regenerated from the .cpp sources on every run (TablesTie).",
     note=INNOTE, technique="Lean 4 proof of the partial statement + proved negation of the full statement on concrete witnesses; exhaustive idle-byte and key-space oracle with known-findings matching", ref="§5 C20")
 
 NOT_YET = {}
